@@ -464,7 +464,7 @@ class Eval(object):
             return Opaque(('constructed',) + tuple(args))
         if k == 'call':
             g = self.F.fn(e['fn']) if e.get('fn') is not None else None
-            if e.get('op') == '=' and ir.is_expr(e.get('obj')) and len(e.get('args', [])) == 1 and (g is None or g.d.get('implicit')):
+            if e.get('op') == '=' and ir.is_expr(e.get('obj')) and len(e.get('args', [])) == 1 and (g is None or g.d.get('implicit') or g.d.get('defaulted')):
                 lv = self.lv(e['obj'], fn, env)
                 v = self.ev(e['args'][0], fn, env)
                 self.store(lv, v, env)
